@@ -27,8 +27,9 @@ LD_three == << <<1>>, <<1>>, <<1>> >>
 VARIABLES S, prog, nops, npass, nh, done
 vars == <<S, prog, nops, npass, nh, done>>
 
+IdAdj(n, t) == t
 INSTANCE AutodiffAbs WITH SAdd <- DAdd, SMul <- DMul, SNeg <- DNeg, SDiv <- DDiv, SFn <- DFn,
-                          SPow <- DPow, SDPow <- DDPow, SZero <- DZero, SOne <- DOne
+                          SPow <- DPow, SDPow <- DDPow, SZero <- DZero, SOne <- DOne, AdjCanon <- IdAdj
 
 \* values stay inside the exact domain: a program whose specified values overflow is not generated
 TaintedT(t) == \E k \in 1..Len(t.v) : IsHuge(t.v[k])
